@@ -2,6 +2,7 @@
 package main
 
 import (
+	"os"
 	"io"
 	"google.golang.org/grpc"
 	"context"
@@ -164,6 +165,20 @@ func (w *world) check(r *sched.Run) (string, *explore.Violation) {
 						return "", &explore.Violation{Key: "foreign-cluster-id-accepted", Msg: fmt.Sprintf("a timestamp stream with cluster ids %v (the cluster's id is %d) was answered %d times, error %v", ids, srvh.ClusterID, len(fs.out), err)}
 					}
 				}
+				// a region heartbeat stream: the same for every heartbeat on it
+				for _, ids := range [][]uint64{{srvh.ClusterID, srvh.ClusterID + 1}, {srvh.ClusterID, srvh.ClusterID, 0}} {
+					hs := &hbStream{ctx: context.Background()}
+					for _, id := range ids {
+						hs.in = append(hs.in, &pdpb.RegionHeartbeatRequest{Header: &pdpb.RequestHeader{ClusterId: id}, Region: win.req.Region, Leader: win.req.Region.Peers[0]})
+					}
+					err := s.RegionHeartbeat(hs)
+					if os.Getenv("VERIF_C20_DEBUG") != "" {
+						fmt.Fprintf(os.Stderr, "hb stream %v -> %v (left %d)\n", ids, err, len(hs.in))
+					}
+					if err == nil || !strings.Contains(err.Error(), "mismatch cluster id") {
+						return "", &explore.Violation{Key: "foreign-cluster-id-accepted", Msg: fmt.Sprintf("a region heartbeat stream with cluster ids %v (the cluster's id is %d) was not ended by a cluster id mismatch (%v)", ids, srvh.ClusterID, err)}
+					}
+				}
 				// the cluster keeps its identity: a cluster configuration carrying another cluster
 				// id (in the header or in the body) is refused and the stored meta stays as it is
 				metaKey := srvh.Root + "/raft"
@@ -213,6 +228,24 @@ func (t *tsoStream) Send(r *pdpb.TsoResponse) error {
 	return nil
 }
 func (t *tsoStream) Recv() (*pdpb.TsoRequest, error) {
+	if len(t.in) == 0 {
+		return nil, io.EOF
+	}
+	r := t.in[0]
+	t.in = t.in[1:]
+	return r, nil
+}
+
+// hbStream is the server side of a RegionHeartbeat stream fed from a list of requests.
+type hbStream struct {
+	grpc.ServerStream
+	ctx context.Context
+	in  []*pdpb.RegionHeartbeatRequest
+}
+
+func (t *hbStream) Context() context.Context                    { return t.ctx }
+func (t *hbStream) Send(*pdpb.RegionHeartbeatResponse) error    { return nil }
+func (t *hbStream) Recv() (*pdpb.RegionHeartbeatRequest, error) {
 	if len(t.in) == 0 {
 		return nil, io.EOF
 	}
